@@ -144,14 +144,38 @@ def analyse_search_helper(ctx):
 
 
 def index_consumers(ctx) -> List[Tuple[Func, ast.Call]]:
+    """(function that uses an index search result, the call that produced it).  A private helper
+    that merely returns the result of Index.search is looked through: its callers are the consumers."""
     out = []
+    direct = []
     for f in ctx.prog.all_funcs():
         if f.cls == "Index":
             continue
         for n in walk_local(f.node):
             if isinstance(n, ast.Call) and isinstance(n.func, ast.Attribute) and n.func.attr == "search" \
                     and ctx.res.type_of(n.func.value, f) == "Index":
-                out.append((f, n))
+                direct.append((f, n))
+    todo = list(direct)
+    seen = set()
+    while todo:
+        f, n = todo.pop()
+        if (f.qual, id(n)) in seen:
+            continue
+        seen.add((f.qual, id(n)))
+        st = stmt_of(n)
+        passthrough = isinstance(st, ast.Return) and st.value is n and f.name.startswith("_") \
+            and not f.name.startswith("__") and f.cls is not None
+        if passthrough:
+            callers = []
+            for g in ctx.prog.all_funcs():
+                for c in walk_local(g.node):
+                    if isinstance(c, ast.Call) and isinstance(c.func, ast.Attribute) and c.func.attr == f.name \
+                            and is_self_attr(c.func) and ctx.res.self_class(g) == f.cls:
+                        callers.append((g, c))
+            if callers:
+                todo.extend(callers)
+                continue
+        out.append((f, n))
     return out
 
 
@@ -277,48 +301,48 @@ def leaf_scan_agreement(ctx):
             yield Ob("C01.R2", ["C01"], f"{f.qual} | _test argument | {norm(t)}{occ(f, t)}", ok,
                      why or "tested value is the resolver's result", ctx.prog.loc(t))
             # the add must be control-dependent on the test being true and bound by the same loop
-            st = stmt_of(t)
-            adds = []
-            if isinstance(st, ast.If) and in_subtree(t, st.test):
-                for x in st.body:
-                    for c in ast.walk(x):
-                        if isinstance(c, ast.Call) and call_name(c) in ("add", "union", "update"):
-                            adds.append(c)
-                        if isinstance(c, ast.AugAssign):
-                            adds.append(c)
-                neg = False
-                e = t
-                while e is not st.test:
-                    e = parent(e)
-                    if isinstance(e, ast.UnaryOp) and isinstance(e.op, ast.Not):
-                        neg = not neg
-                    if e is None:
-                        break
-                ok2 = bool(adds) and not neg
+            loop = None
+            for a in ancestors(t):
+                if isinstance(a, ast.For):
+                    loop = a
+                    break
+            if loop is not None:
+                tt = norm(t)
+                adds = [c for c in walk_local(loop) if (isinstance(c, ast.Call) and call_name(c) in ("add", "update")
+                                                        and isinstance(c.func, ast.Attribute))
+                        or (isinstance(c, ast.Assign) and isinstance(c.value, ast.Call)
+                            and call_name(c.value) in ("union",))]
+                adds = [c for c in adds if not any(isinstance(a_, (ast.For,)) and a_ is not loop and in_subtree(a_, loop)
+                                                   and in_subtree(c, a_) and not in_subtree(t, a_) for a_ in ancestors(c))]
+                good = []
+                wrong = []
+                for c in adds:
+                    cl = guard_clauses(guards(c, stop=loop))
+                    pos = any(len(x) == 1 and next(iter(x)) == (f"truthy({tt})", True) for x in cl)
+                    neg = any(len(x) == 1 and next(iter(x)) == (f"truthy({tt})", False) for x in cl)
+                    if pos:
+                        good.append(c)
+                    elif neg:
+                        wrong.append(c)
+                ok2 = bool(good) and not wrong
                 msg = "positions are added exactly when the test is true"
-                if neg:
+                if wrong:
                     msg = "positions are added when the test is FALSE"
-                elif not adds:
-                    msg = "no position is added under the true branch of the test"
+                elif not good:
+                    msg = "no position is added under the true outcome of the test"
                 else:
-                    loop = None
-                    for a in ancestors(st):
-                        if isinstance(a, ast.For):
-                            loop = a
-                            break
-                    if loop is not None:
-                        tn = names_in(loop.target)
-                        added = set()
-                        for c in adds:
-                            if isinstance(c, ast.Call):
-                                for a_ in c.args:
-                                    added |= names_in(a_)
-                        if not (added & tn):
-                            ok2 = False
-                            msg = (f"added positions {sorted(added)} are not bound by the loop that binds the "
-                                   f"tested value ({sorted(tn)})")
-                yield Ob("C01.R2", ["C01"], f"{f.qual} | add under test | {norm(st.test, 80)}{occ(f, st)}", ok2, msg,
-                         ctx.prog.loc(st))
+                    tn = names_in(loop.target)
+                    added = set()
+                    for c in good:
+                        cc = c if isinstance(c, ast.Call) else c.value
+                        for a_ in cc.args:
+                            added |= names_in(a_)
+                    if not (added & tn):
+                        ok2 = False
+                        msg = (f"added positions {sorted(added)} are not bound by the loop that binds the "
+                               f"tested value ({sorted(tn)})")
+                yield Ob("C01.R2", ["C01"], f"{f.qual} | add under test | {norm(t, 80)}{occ(f, t)}", ok2, msg,
+                         ctx.prog.loc(t))
         # every stored value is examined: no break/return inside a loop that evaluates the test
         for lp in walk_local(f.node):
             if isinstance(lp, (ast.For, ast.While)) and any(t in list(ast.walk(lp)) for t in tests):
